@@ -33,9 +33,11 @@ package core
 //@   ensures result1 == nil ==> @isGroupJson(bytes(result0)) && @decId(bytes(result0)) == bytes(arg0.Id) && @decPre(bytes(result0)) == bytes(arg0.Header.PreGroup) && @decHeight(bytes(result0)) == arg0.GroupHeight && fresh(result0)
 //@   modifies nothing
 
+// heightKey is DEFINED by content: the byte string of any 8-byte window holding the big-endian bytes of h. This is
+// what ties generateKey's body (make + binary.BigEndian.PutUint64, verified, no longer trusted) to the abstract key.
+//@ smt (assert (forall ((a (Array (_ BitVec 64) (_ BitVec 8))) (o (_ BitVec 64)) (h (_ BitVec 64))) (! (=> (and (= (select a o) ((_ extract 63 56) h)) (= (select a (bvadd o (_ bv1 64))) ((_ extract 55 48) h)) (= (select a (bvadd o (_ bv2 64))) ((_ extract 47 40) h)) (= (select a (bvadd o (_ bv3 64))) ((_ extract 39 32) h)) (= (select a (bvadd o (_ bv4 64))) ((_ extract 31 24) h)) (= (select a (bvadd o (_ bv5 64))) ((_ extract 23 16) h)) (= (select a (bvadd o (_ bv6 64))) ((_ extract 15 8) h)) (= (select a (bvadd o (_ bv7 64))) ((_ extract 7 0) h))) (= (bytes-of a o (_ bv8 64)) (heightKey h))) :pattern ((bytes-of a o (_ bv8 64)) (heightKey h)))))
 //@ func generateKey
 //@   property C19
-//@   option trusted
 //@   ensures bytes(result) == @heightKey(i) && fresh(result)
 //@   modifies nothing
 
